@@ -55,3 +55,64 @@ pub fn verif_write_map_items<W: Write>(w: &mut DefaultProtocolWriter<W>, val: &H
 {
     unimplemented!()
 }
+
+/// the error of `str::parse`; only its text is used (in a log line)
+#[verifier::external_body]
+pub struct VerifParseError {
+    _p: (),
+}
+
+/// R19: `rv.parse::<i64>()`: std's parser inverts std's `to_string` (assumed)
+#[verifier::external_body]
+pub fn verif_parse_i64(s: &String) -> (r: Result<i64, VerifParseError>)
+    ensures
+        forall|v: i64| s@ == i64_text(v) ==> r == Ok::<i64, VerifParseError>(v),
+{
+    unimplemented!()
+}
+
+/// R19: `rv.parse::<f64>()`
+#[verifier::external_body]
+pub fn verif_parse_f64(s: &String) -> (r: Result<f64, VerifParseError>)
+    ensures
+        forall|v: f64| s@ == f64_text(v) ==> r == Ok::<f64, VerifParseError>(v),
+{
+    unimplemented!()
+}
+
+impl SourceCode {
+    /// `SourceCode { source: source.to_string(), source_id }` (src/datamodel/mod.rs)
+    #[verifier::external_body]
+    pub fn new(source: &str, source_id: SourceId) -> (r: SourceCode)
+        ensures
+            r.source@ == source@,
+            r.source_id == source_id,
+    {
+        unimplemented!()
+    }
+}
+
+/// R19: the element loops of the container variants in read_data_value_payload (`val.push(self.read_data_arc())`,
+/// `val.insert(k, self.read_data_arc())`): NOT under contract; only the sticky error flag is assumed
+#[verifier::external_body]
+pub fn verif_read_array_items<R: Read>(r: &mut DefaultProtocolReader<R>, val: &mut Vec<DataArc>, len: usize)
+    ensures
+        !old(r).ok ==> !final(r).ok && final(r).reader == old(r).reader,
+        final(r).reader.eof_only() == old(r).reader.eof_only(),
+{
+    unimplemented!()
+}
+
+#[verifier::external_body]
+pub fn verif_read_map_items<R: Read>(r: &mut DefaultProtocolReader<R>, val: &mut HashMap<String, DataArc>, len: usize)
+    ensures
+        !old(r).ok ==> !final(r).ok && final(r).reader == old(r).reader,
+        final(r).reader.eof_only() == old(r).reader.eof_only(),
+{
+    unimplemented!()
+}
+
+#[verifier::external_body]
+pub fn verif_map_with_capacity(len: usize) -> (r: HashMap<String, DataArc>) {
+    HashMap::with_capacity(len)
+}
